@@ -735,10 +735,18 @@ impl ArrayBuffer {
                     .into());
             };
 
-            // 26. Perform CopyDataBlockBytes(toBuf, 0, fromBuf, first, newLen).
+            // 26. Let currentLen be O.[[ArrayBufferByteLength]].
+            // 27. If first < currentLen, then
+            //     a. Let count be min(newLen, currentLen - first).
+            //     b. Perform CopyDataBlockBytes(toBuf, 0, fromBuf, first, count).
+            // NOTE: Side-effects of the above steps may have resized O.
             let first = first as usize;
             let new_len = new_len as usize;
-            to_buf[..new_len].copy_from_slice(&from_buf[first..first + new_len]);
+            let current_len = from_buf.len();
+            if first < current_len {
+                let count = new_len.min(current_len - first);
+                to_buf[..count].copy_from_slice(&from_buf[first..first + count]);
+            }
         }
 
         // 27. Return new.
